@@ -30,6 +30,10 @@ def coq_parse_cases(case, obs):
 	"""one CParse literal per fragmentation"""
 	s = bytes.fromhex(case['s'])
 	out = []
+	if len(s) > 20000:
+		# streams of 32 kB and more (thorough tier, boundary-length payloads): the implementation is run and judged by the oracle,
+		# the Coq evaluation is skipped (a literal of several hundred kB per run costs gigabytes in coqc)
+		return None
 	for run in obs['runs']:
 		frags = streams.cuts_to_frags(s, run['cuts'])
 		out.append(parser_rec.coq_parse_case(case['kind'], frags, run))
